@@ -344,6 +344,10 @@ def polyhedral_termlist_from_string(str_rep: str) -> List[PolyhedralTerm]:
         tokens: pp.ParseResults = expression.parse_string(str_rep, parse_all=True)
     except pp.ParseBaseException as pe:
         raise PolyhedralSyntaxException(pe, str_rep)
+    except RecursionError:
+        # a few dozen nested parentheses exhaust the recursive-descent parser
+        too_deep = pp.ParseException(str_rep, 0, "Expression is nested too deeply")
+        raise PolyhedralSyntaxException(too_deep, str_rep)
 
     if len(tokens) == 1:
         e = tokens[0]
